@@ -196,9 +196,11 @@ theorem saveBlock_onlyQueue (r : Replica) (e : Env) (q : CommitQC) : OnlyQueue (
   · intro x hx; simp at hx
   · split
     · intro x hx; simp at hx
-    · intro x hx
-      simp only [List.mem_singleton] at hx
-      exact ⟨_, _, _, hx⟩
+    · split
+      · intro x hx
+        simp only [List.mem_singleton] at hx
+        exact ⟨_, _, _, hx⟩
+      · intro x hx; simp at hx
 
 theorem processCommitQC_eq_new (r : Replica) (e : Env) (q : CommitQC)
     (h : ∀ cur, r.highCommitQC = some cur → cur.message.view.number < q.message.view.number) :
